@@ -133,7 +133,7 @@ def byte_mutants(r, text, n):
 def main(tier, seed):
     res = Result(PID, tier, seed)
     try:
-        translate.run_all()
+        translate.run_all(PID)
     except translate.AnchorLost as e:
         res.violation("translator lost its anchor: %s" % e, {"theorem_or_correspondence": "tools/translate.py gen_expbuffers"}, found_input=False)
     pr = coq_prove(PID)
